@@ -85,15 +85,33 @@ def flow(chk, pid, lemma_file, prop_file, search, n_corr, n_search, rule, decora
     if chk.tier != "thorough" and (chk.broken or deep):
         sizes.append(6 * n_search[0])      # failing-input search: go deeper only if the normal size finds nothing
     s, out4 = None, ""
-    for n in sizes:
-        rc4, s2, out4 = chk.bridge_json(search, [str(chk.seed), str(n)], timeout=1700 if chk.tier == "thorough" else 900)
-        if s2 is not None:
-            s = s2
-            if any(True for f_ in s2["failures"]
-                   if not any(k.get("property") == chk.pid and k.get("kind") == "finding" and k.get("signature") == f_["signature"]
-                              for k in chk.findings)):
+    if chk.tier == "thorough":
+        # the thorough exploration runs as independent chunks (own sub-seed, own time limit): SymPy occasionally does not
+        # return on one generated tree, and a chunk that runs out of time is exploration lost (noted), not a failed obligation
+        chunk = max(1, min(500, sizes[0]))
+        runs = [(chk.seed + 1000 * k, chunk, 700) for k in range(max(1, sizes[0] // chunk))]
+    else:
+        runs = [(chk.seed, n, 900) for n in sizes]
+    for sub_seed, n, tmo in runs:
+        rc4, s2, out4 = chk.bridge_json(search, [str(sub_seed), str(n)], timeout=tmo)
+        if s2 is None:
+            if chk.tier == "thorough":
+                chk.notes.append(f"{search}: exploration chunk (seed {sub_seed}, n {n}) did not finish within {tmo}s and is not counted")
+                continue
+            if s is not None:
                 break
-        elif s is not None:
+            continue
+        if s is None:
+            s = s2
+        else:  # merge chunks
+            s["evaluations"] += s2["evaluations"]
+            s["distinct"] += s2["distinct"]
+            s["failures"] += s2["failures"]
+            for k_, v_ in s2.get("kinds", {}).items():
+                s.setdefault("kinds", {})[k_] = s.get("kinds", {}).get(k_, 0) + v_
+        if any(True for f_ in s2["failures"]
+               if not any(k.get("property") == chk.pid and k.get("kind") == "finding" and k.get("signature") == f_["signature"]
+                          for k in chk.findings)):
             break
     if s is None:
         chk.broken.append({"file": search, "item": "harness", "coqc_output": out4[-1500:]})
